@@ -12,8 +12,10 @@ builtin_id_pack_cache = {}  # name_pack -> id_pack
 builtin_classes_cache = {}  # id_pack -> class
 # If these can be accessed, numpy will try to load the array from local memory,
 # resulting in exceptions and/or segfaults, see #236:
+# Likewise a proxy cannot export a buffer: with the PEP 688 methods forwarded (Python >= 3.12), bytes(), bytearray()
+# and memoryview() treat the proxy as a buffer exporter and fail instead of falling back to iteration.
 DELETED_ATTRS = frozenset([
-    '__array_struct__', '__array_interface__',
+    '__array_struct__', '__array_interface__', '__buffer__', '__release_buffer__',
 ])
 
 """the set of attributes that are local to the netref object"""
